@@ -5,8 +5,15 @@ TLC checks spec/MCReplication.tla exhaustively (network duplicating, reordering,
 harness/cmd/c07 drives a real primary store and 1-2 real replica stores the way pkg/replication does (ExportTx, ReplicateTx,
 allowance from durable acks, AllowCommitUpto on replicas after the primary committed) with duplicated / out-of-order /
 bit-altered deliveries, replica restarts and discards; the merged hook trace of all stores is validated by TLC against
-Replication.tla (spec/TraceReplication.tla) and each store's own events against Store.tla (spec/TraceStore.tla)."""
-import json, os, sys, concurrent.futures as cf
+Replication.tla (spec/TraceReplication.tla) and each store's own events against Store.tla (spec/TraceStore.tla).
+Database level (phase "db"): spec/ReplicationDB.tla makes the steps of the real replication round explicit (a replica REPORTS its
+committed / durably precommitted state, the request ARRIVES at the followed node which COUNTS the ack and raises its allowance,
+ANSWERS with a tx / its commit state / divergence, the replica accepts the allowance, discards after divergence, nodes switch the
+node they follow, are promoted, restarted).  TLC checks spec/MCReplicationDB.tla (transcribed decisions of pkg/database and
+pkg/replication + failover) exhaustively, the variants with a weakened decision must have counterexamples, and harness/cmd/c07db
+runs the REAL replication.TxReplicator between REAL database.DB objects under gated schedules (randomized, TLC-simulated and TLC
+counterexamples); the merged trace (store hooks + driver events) is validated against ReplicationDB.tla (spec/TraceReplicationDB.tla)."""
+import json, os, re, sys, threading, time, concurrent.futures as cf
 sys.path.insert(0, os.path.join(os.path.dirname(os.path.abspath(__file__)), "..", "lib"))
 import vlib
 from vlib import MachineryFault
@@ -25,9 +32,239 @@ CHECK_DEADLOCK FALSE
 """
 
 
+MCDB = """CONSTANTS
+  Nodes = {n1, n2, n3}
+  n1 = n1
+  n2 = n2
+  n3 = n3
+  First = n1
+  MaxTx = %(MaxTx)d
+  MaxFail = %(MaxFail)d
+  MaxRestart = %(MaxRestart)d
+  SyncRepl = %(SyncRepl)s
+  Acks = %(Acks)d
+  AllowDiscard = %(AllowDiscard)s
+  WithReroute = %(WithReroute)s
+  ReportInMem = %(ReportInMem)s
+  SkipPrecommitCheck = %(SkipPrecommitCheck)s
+  SkipReplicaAlhCheck = FALSE
+  DiscardKeepsAllowance = %(DiscardKeepsAllowance)s
+  RecordSched = %(RecordSched)s
+  EmitDepth = %(EmitDepth)d
+SPECIFICATION MCSpec
+INVARIANTS %(inv)s
+%(view)s
+CHECK_DEADLOCK FALSE
+"""
+MCDB_ACTIONS = ["ClientWrite", "SyncStep", "CommitStep", "ReportStep", "PrimaryServe", "HandleAnswer", "ApplyAny", "LoseStep", "PromoteStep",
+                "SwitchStep", "RerouteStep", "RestartStep"]
+T, F = "TRUE", "FALSE"
+
+
+def mcdb_cfg(**kw):
+    d = dict(MaxTx=2, MaxFail=1, MaxRestart=0, SyncRepl=T, Acks=1, AllowDiscard=T, WithReroute=T, ReportInMem=F, SkipPrecommitCheck=F,
+             DiscardKeepsAllowance=F, RecordSched=F, EmitDepth=0, inv="NoBad MCTypeOK", view="VIEW View\nSYMMETRY Sym")
+    d.update(kw)
+    return MCDB % d
+
+
+def sched_of(res, what):
+    st = vlib.error_trace_last_state(res.out)
+    if not st or "sched" not in st:
+        raise MachineryFault("cannot parse the counterexample of %s" % what)
+    return [":".join(str(x if not isinstance(x, dict) else x.get("__mv__")) for x in s) for s in st["sched"]], st.get("bad")
+
+
+def db_signature(item, seg, upto):
+    """canonical signature of a collected guard failure; seg = events of the run, upto = index of the failing event in seg"""
+    sig = "replication-db:" + item["what"]
+    if item["what"] in ("replica-commits-before-primary", "replica-commits-tx-not-in-primary-history"):
+        # the allowance in force was granted before the replica discarded the transactions it was granted for
+        allow = None
+        for i in range(upto - 1, -1, -1):
+            e = seg[i]
+            if e.get("node") != item["node"]:
+                continue
+            if e.get("ev") == "Allow":
+                allow = i
+                break
+            if e.get("ev") in ("Switch", "Opened", "Promote"):
+                break
+        if allow is not None and any(e.get("node") == item["node"] and e.get("ev") == "Discard" and e.get("since", 1 << 60) <= seg[allow].get("upto", 0)
+                                     for e in seg[allow:upto]):
+            sig += ":allowance-granted-before-discard"
+    return sig
+
+
+def db_phase(chk, wd, out, binp):
+    """database-level slice; everything that touches chk is deferred to db_fold (this runs in a thread)"""
+    thorough = chk.tier == "thorough"
+    tlc_runs, notes = [], []
+    out["tlc"], out["notes"] = tlc_runs, notes
+
+    def mc(name, workers=3, timeout=1500, extra=(), **kw):
+        r = vlib.run_tlc("MCReplicationDB", "mcdb.cfg", workers=workers, timeout=timeout, extra=list(extra), files=[("mcdb.cfg", mcdb_cfg(**kw))], tag="C07dbmc")
+        if r.error:
+            raise MachineryFault("MCReplicationDB %s: %s" % (name, r.error))
+        tlc_runs.append((r, "MCReplicationDB " + name))
+        return r
+
+    jobs = {}
+    with cf.ThreadPoolExecutor(3) as ex:
+        # the design: no guard of ReplicationDB.tla is ever false, whatever the schedule (2 replicas + primary switch, re-pointing by
+        # reconfiguration and by re-routing, replica restart, rejoin of the lost primary)
+        n3 = 3 if thorough else 2
+        jobs["design sync acks=1"] = ex.submit(mc, "design: sync, 1 ack, %d txs, primary switch" % n3, MaxTx=n3, MaxRestart=0 if thorough else 1, extra=["-coverage", "1"] if not thorough else [])
+        jobs["design sync acks=2"] = ex.submit(mc, "design: sync, 2 acks, 2 txs, primary switch", Acks=2)
+        jobs["design async"] = ex.submit(mc, "design: async, 2 txs, primary switch", SyncRepl=F, MaxRestart=1)
+        if thorough:
+            jobs["design sync acks=1 restart"] = ex.submit(mc, "design: sync, 1 ack, 2 txs, switch + restart", MaxRestart=1, extra=["-coverage", "1"])
+        # weakened decisions must be caught by the guards (teeth), and give schedules that are replayed on the real code
+        jobs["teeth report"] = ex.submit(mc, "teeth: replica advertises its in-memory precommit", ReportInMem=T, RecordSched=T, MaxRestart=0)
+        jobs["teeth check"] = ex.submit(mc, "teeth: primary skips the precommit alh check", SkipPrecommitCheck=T, RecordSched=T, MaxRestart=0)
+        jobs["code allowance"] = ex.submit(mc, "code variant: a discard leaves the commit allowance", DiscardKeepsAllowance=T, RecordSched=T, MaxRestart=0)
+        num = 60 if thorough else 10
+        jobs["sim"] = ex.submit(mc, "simulated schedules", workers=1, MaxTx=5, MaxFail=2, MaxRestart=1, DiscardKeepsAllowance=T, RecordSched=T, EmitDepth=48,
+                                inv="Emit", view="", extra=["-simulate", "num=%d" % num, "-depth", "50", "-seed", str(chk.seed)])
+        res = {k: j.result() for k, j in jobs.items()}
+    for k, r in res.items():
+        if k.startswith("design"):
+            vlib.tlc_must_pass(r, "MCReplicationDB " + k)
+    cov = {}
+    rx = re.compile(r"^<(\w+) line \d+, col \d+ to line \d+, col \d+ of module MCReplicationDB(?: \([\d ]+\))?>: (\d+):(\d+)", re.M)
+    for k, r in res.items():
+        for m in rx.finditer(r.out):
+            cov[m.group(1)] = max(cov.get(m.group(1), 0), int(m.group(3)))
+    if not cov:
+        raise MachineryFault("MCReplicationDB: no coverage statistics")
+    dead = [a for a in MCDB_ACTIONS if cov.get(a, 0) == 0]
+    if dead:
+        raise MachineryFault("MCReplicationDB: actions that never fire: %s (coverage %s)" % (dead, cov))
+    out["coverage"] = cov
+    schedules = []
+    for k in ("teeth report", "teeth check", "code allowance"):
+        r = res[k]
+        if r.violation != "NoBad":
+            raise MachineryFault("MCReplicationDB %s has no counterexample (%s): the model lost its teeth" % (k, r.violation))
+        steps, bad = sched_of(r, k)
+        schedules.append({"cfg": {"sync": True, "need": 1, "allowDiscard": True, "concurrency": 1, "syncFreqMs": [2000], "txs": 9}, "steps": steps, "origin": "tlc-counterexample:" + k,
+                          "expect": bad})
+    sims = vlib.printed_json(res["sim"].out)
+    seen = set()
+    for b in sims:
+        steps = [":".join(str(x) for x in s) for s in b["steps"]]
+        key = "|".join(steps)
+        if key in seen:
+            continue
+        seen.add(key)
+        i = len(seen)
+        schedules.append({"cfg": {"sync": i % 4 != 0, "need": 1 + i % 2, "allowDiscard": i % 5 != 0, "concurrency": 1 + i % 3, "syncFreqMs": [2000], "txs": 12, "dups": i % 3 == 1},
+                          "steps": steps, "origin": "tlc-simulate"})
+    if len(seen) < num // 2:
+        raise MachineryFault("MCReplicationDB simulation printed only %d schedules" % len(seen))
+    sp = os.path.join(wd, "dbsched.json")
+    json.dump(schedules, open(sp, "w"))
+    tf = os.path.join(wd, "dbtrace.ndjson")
+    runs = 40 if thorough else 7
+    t0 = time.time()
+    hout, _ = vlib.run_harness(binp, ["-seed", str(chk.seed), "-runs", str(runs), "-schedules", sp, "-dir", os.path.join(wd, "dbd"), "-out", tf], timeout=3000)
+    vlib.log("[c07db] %d schedules + %d random runs in %.0fs" % (len(schedules), runs, time.time() - t0))
+    out["harness"] = json.loads(hout)
+    rout, _ = vlib.run_harness(binp, ["-repro", "stale-allowance", "-dir", os.path.join(wd, "dbr"), "-out", os.path.join(wd, "dbr.ndjson")], timeout=300)
+    out["repro"] = json.loads(rout)
+    lines = open(tf).readlines()
+    tv = vlib.run_tlc("TraceReplicationDB", "TraceReplicationDB.cfg", workers=1, timeout=2400, env={"VERIF_TRACE": tf}, tag="C07dbtv")
+    if tv.error and not tv.postcondition_failed:
+        raise MachineryFault("TraceReplicationDB: " + tv.error)
+    tlc_runs.append((tv, "TraceReplicationDB (%d events, %d runs)" % (len(lines), len(schedules) + runs)))
+    out["lines"], out["tv"], out["schedules"] = lines, tv, schedules
+
+
+def db_fold(chk, out):
+    for r, name in out["tlc"]:
+        chk.add_tlc(r, name)
+    lines, tv, r = out["lines"], out["tv"], out["harness"]
+    evs = [json.loads(x) for x in lines]
+    starts = [i for i, e in enumerate(evs) if e.get("ev") == "Reset"]
+    # per-process sequence numbers of the driver events must be increasing in the merged order
+    for si, s0 in enumerate(starts):
+        last = {}
+        for e in evs[s0:(starts[si + 1] if si + 1 < len(starts) else len(evs))]:
+            if "pseq" in e:
+                if e["pseq"] <= last.get(e["node"], 0):
+                    raise MachineryFault("c07db trace: per-node sequence numbers out of order at %s" % json.dumps(e)[:200])
+                last[e["node"]] = e["pseq"]
+
+    def run_of(ln):
+        s0 = max(i for i in starts if i < ln)
+        return s0, evs[s0]
+
+    noise = ("VLogsSynced", "CLogFlushed", "CLogSynced")
+    if tv.postcondition_failed or tv.violation:
+        m = re.search(r'"TRACE-REJECTED-AT-LINE",\s*(\d+)', tv.out)
+        ln = int(m.group(1)) if m else 0
+        ev = evs[ln - 1] if 0 < ln <= len(evs) else {}
+        s0, reset = run_of(ln) if ln else (0, {})
+        chk.violation("replication-db-trace:%s:not-explained" % ev.get("ev"),
+                      "real database-level execution is not a behaviour of ReplicationDB.tla: event %s of node %s cannot be explained (run config %s)"
+                      % (json.dumps(ev)[:300], ev.get("node"), reset.get("cfg")),
+                      {"config": reset.get("cfg"), "schedule": reset.get("sched"), "trace_prefix": [e for e in evs[s0:ln] if e.get("ev") not in noise][-80:]})
+    nbad = 0
+    for b in vlib.printed_json(tv.out):
+        for item in b["bad"]:
+            nbad += 1
+            ln = item["line"]
+            s0, reset = run_of(ln)
+            seg = evs[s0:ln]
+            sig = db_signature(item, seg, len(seg) - 1)
+            chk.violation(sig, "node %s: %s (tx %s) at event %s; run config %s" % (item["node"], item["what"], item["id"], json.dumps(evs[ln - 1])[:240], reset.get("cfg")),
+                          {"config": reset.get("cfg"), "schedule": reset.get("sched"), "trace_prefix": [e for e in seg if e.get("ev") not in noise][-80:]})
+    # the schedules of the weakened-decision counterexamples, replayed on the (unweakened) real code, must not reproduce the model's verdict
+    ctr = r.get("counters") or {}
+    need = {"report": "db:report", "report while in-memory precommit is ahead of the durable one": "db:report-while-inmem-ahead-of-durable",
+            "export answer with a tx": "db:export-answer:tx", "export answer with the commit state only": "db:export-answer:state-only",
+            "failover: promotion": "db:failover:promote", "failover: reconfigured replica": "db:failover:switch", "failover: re-routed replica": "db:failover:reroute",
+            "divergence detected (precommit)": "db:divergence-detected:precommit", "divergence detected (commit)": "db:divergence-detected:commit",
+            "discard after divergence": "db:discard-events:replica", "allowance of a primary": "db:allowance-events:primary",
+            "allowance accepted by a replica": "db:replica-allow", "commit on a replica": "db:commit-events:replica", "commit on a primary": "db:commit-events:primary",
+            "restart": "db:restart", "duplicated delivery": "db:duplicate-delivery"}
+    zero = [k for k, c in need.items() if not ctr.get(c)]
+    if zero:
+        raise MachineryFault("c07db: vacuous run, no %s (counters %s)" % (zero, {k: v for k, v in ctr.items() if k.startswith("db:")}))
+    if ctr.get("db:steps-skipped", 0) * 2 > ctr.get("db:steps", 1):
+        raise MachineryFault("c07db: most scheduled steps could not be performed (%s of %s)" % (ctr.get("db:steps-skipped"), ctr.get("db:steps")))
+    vlib.absorb(chk, r)
+    vlib.absorb(chk, out["repro"])
+    chk.cov.setdefault("extra", {})["db_mc_action_coverage"] = out["coverage"]
+    chk.cov["extra"]["db_guard_failures_collected"] = nbad
+    chk.cov["extra"]["db_schedules"] = {"tlc": len(out["schedules"]), "random": ctr.get("db:runs:random-schedule", 0)}
+    chk.notes += out["notes"]
+
+
 def run(chk, args):
     thorough = chk.tier == "thorough"
     wd = vlib.scratch("C07")
+    # the database-level slice runs beside the store-level one
+    dbout, dberr = {}, []
+    dbbin = vlib.go_build("c07db")
+
+    def dbthread():
+        try:
+            db_phase(chk, wd, dbout, dbbin)
+        except BaseException as ex:
+            dberr.append(ex)
+    th = threading.Thread(target=dbthread)
+    th.start()
+    try:
+        run_store(chk, args, wd, thorough)
+    finally:
+        th.join()
+    if dberr:
+        raise dberr[0]
+    db_fold(chk, dbout)
+
+
+def run_store(chk, args, wd, thorough):
     binp = vlib.go_build("c07")
     for acks in (0, 1, 2):
         d = vlib.run_tlc("MCReplication", "mc.cfg", workers=8, timeout=2400, files=[("mc.cfg", MC % (acks, 4 if thorough else 3, "FALSE"))], tag="C07mc")
@@ -93,8 +330,10 @@ def run(chk, args):
             report_live_bad(chk, sres, flat)
     r["traces"] = runs
     vlib.absorb(chk, r)
-    chk.cov["rule"] = "one trace per run (primary + 1-2 replicas; config rotates over sync acks 0/1/all, integrity-check skipping, header version, embedded values, file size, faults, replica restart, replica discard)"
-    chk.assumptions += ["store level: the gRPC replicator loop of pkg/replication is emulated by the driver making the same calls; pkg/database wrappers are not driven",
+    chk.cov["rule"] = "store level: one trace per run (primary + 1-2 replicas; config rotates over sync acks 0/1/all, integrity-check skipping, header version, embedded values, file size, faults, replica restart, replica discard)"
+    chk.assumptions += ["store-level phase: the replicator loop is emulated by the driver making the same calls (alterations, skipped integrity checks, header versions)",
+                        "database-level phase: real database.DB + real replication.TxReplicator in one process; the gRPC transport and the 30 lines of server.exportTx are replaced by an in-process stream (real pkg/stream chunking); "
+                        "a lost primary is a node nobody can reach any more (no crash images); failover by reconfiguration (Stop/AsReplica/Start) and by re-routing the primary address",
                         "alterations are single-bit flips anywhere in the exported bytes"]
 
 
